@@ -280,7 +280,12 @@ func init() {
 	Register(&Check{ID: "C01", Level: "fault_enumeration",
 		Rule: "one case = one generated workflow (shell-command and Go-function tasks; output paths plain, in new sub-directories, parent-relative, absolute; extra files) under one tape-chosen schedule, optionally with one injected command failure (exit before / after partial / after complete write, signal at a micro-step, omitted output). For that schedule EVERY distinct crash state (the fs after each journalled fs mutation = every instant at which killing the process group leaves a different durable state) is enumerated and checked: a file at a declared final path implies an exit(0) of that task's command earlier in the journal and complete bytes; every other new regular file is an audit/log/extra file or lies below a _scipipe_tmp* directory. evaluations = incarnations; crash_states_enumerated counts the states checked. distinct = event-log hash; non-trivial = >=2 tasks started and >=1 non-default choice",
 		Run: func(c *Case) Verdict {
-			w := Generate(c.Tape, tierProfile(profC01, c.Tier))
+			var w *WF
+			if c.Tape.Choose(simrt.StGen, 6, 0) == 1 {
+				w = sameNameWF(c)
+			} else {
+				w = Generate(c.Tape, tierProfile(profC01, c.Tier))
+			}
 			ex := Eval(w)
 			var fault *FaultSpec
 			what := ""
@@ -325,6 +330,35 @@ func init() {
 			}
 			return OK()
 		}})
+}
+
+// sameNameWF: tasks of one process whose inputs differ only in the directory
+// (and optionally only in a parameter / an upstream directory): their
+// unfinished work must still live in different temp directories.
+func sameNameWF(c *Case) *WF {
+	t := c.Tape
+	w := &WF{Name: "wf", Sources: map[string]string{}}
+	n := 1 + t.Choose(simrt.StGen, 2, 0)
+	dirs := []string{"a/", "b/", "c/x/"}
+	k := 2 + t.Choose(simrt.StGen, 2, 0)
+	var from []Edge
+	for d := 0; d < k; d++ {
+		node := Node{Name: fmt.Sprintf("src%d", d), Kind: KFileSrc}
+		for i := 0; i < n; i++ {
+			p := fmt.Sprintf("%sjob_%d.txt", dirs[d], i)
+			node.Files = append(node.Files, p)
+			w.Sources[p] = fmt.Sprintf("source %s\n", p)
+		}
+		from = append(from, Edge{addNode(w, node), "out"})
+	}
+	p0 := addNode(w, Node{Name: "p0", Kind: KProc, Cores: 1, Ins: []InSpec{{Name: "a", From: from}},
+		Outs: []OutSpec{{Name: "o0", Pattern: "{i:a}.p0.o0"}}})
+	if t.Choose(simrt.StGen, 2, 0) == 1 {
+		oneToOne(w, "p1", Edge{p0, "o0"})
+	}
+	w.MaxTasks = 2 + t.Choose(simrt.StGen, 3, 0)
+	w.Bufsize = bufsizeOf(t)
+	return w
 }
 
 // --- C03 ---------------------------------------------------------------------------------
